@@ -1060,3 +1060,75 @@ pub fn gen_realistic_of(rng: &mut Rng, kind: Option<u16>) -> SpecMessage {
         avps,
     }
 }
+
+
+/// Messages related to `m` the way an encoder-side memo keyed too coarsely
+/// (ids, sequence numbers, length, AVP count, first AVP) would confuse them:
+/// the same message, one with another Ns/Nr or id, one AVP value changed
+/// (same size), one AVP more or less, the AVPs in another order.
+pub fn related_messages(rng: &mut Rng, m: &SpecMessage, n: usize) -> Vec<SpecMessage> {
+    let mut out = Vec::new();
+    for _ in 0..n {
+        let mut v = m.clone();
+        match &mut v {
+            SpecMessage::Control { tunnel_id, session_id, ns, nr, avps, length } => match rng.below(8) {
+                0 | 1 => {}
+                2 => *ns = ns.wrapping_add(1),
+                3 => *nr = nr.wrapping_add(1),
+                4 => {
+                    if rng.bool() {
+                        *tunnel_id ^= 1 << rng.below(16);
+                    } else {
+                        *session_id ^= 1 << rng.below(16);
+                    }
+                }
+                5 if avps.len() >= 2 => {
+                    // another value of the same size in one AVP
+                    let i = rng.urange(1, avps.len() - 1);
+                    match &mut avps[i].val {
+                        Val::U16(x) => *x = x.wrapping_add(1),
+                        Val::U32(x) => *x = x.wrapping_add(1),
+                        Val::U64(x) => *x = x.wrapping_add(1),
+                        Val::Bytes(b) | Val::Str(b) | Val::Hidden(b) if !b.is_empty() => {
+                            let k = rng.usize_below(b.len());
+                            b[k] = if b[k] == b'a' { b'b' } else { b'a' };
+                        }
+                        Val::Fix4(b) => b[3] ^= 1,
+                        Val::Fix16(b) => b[15] ^= 1,
+                        _ => {}
+                    }
+                }
+                6 if avps.len() >= 3 => {
+                    let i = rng.urange(1, avps.len() - 1);
+                    if rng.bool() {
+                        avps.remove(i);
+                    } else {
+                        let j = rng.urange(1, avps.len() - 1);
+                        avps.swap(i, j);
+                    }
+                }
+                _ => {
+                    *length = if rng.bool() { 0 } else { rng.u16() };
+                }
+            },
+            SpecMessage::Data { tunnel_id, ns_nr, data, prio, .. } => match rng.below(5) {
+                0 | 1 => {}
+                2 => *tunnel_id = tunnel_id.wrapping_add(1),
+                3 => {
+                    if let Some((a, _)) = ns_nr {
+                        *a = a.wrapping_add(1);
+                    } else {
+                        *prio = !*prio;
+                    }
+                }
+                _ => {
+                    if let Some(x) = data.last_mut() {
+                        *x ^= 1;
+                    }
+                }
+            },
+        }
+        out.push(v);
+    }
+    out
+}
